@@ -232,6 +232,37 @@ def run(ctx):
     case, _raw = cd.record_cseg_encode(big, [41, 41, 41])
     items.append((big, [41, 41, 41], case, "width32"))
 
+    # ---- C->S: multi-step histories on one PrecomputedIO (one encoder object per
+    # scale, several scales with DIFFERENT block sizes, several chunks of equal
+    # shape; returned arrays compared after the last call) ----------------------
+    nh = 0
+    for _ in range(ctx.pick(40, 600)):
+        rng = ctx.rng
+        dtype = rng.choice(["uint32", "uint64"])
+        C = rng.choice([1, 1, 2])
+        nprng = np.random.default_rng(rng.randrange(1 << 30))
+        scales, order = [], []
+        for k in range(rng.choice([2, 2, 3])):
+            cs = [rng.randint(2, 6) for _ in range(3)]
+            grid = [rng.randint(1, 2) for _ in range(3)]
+            size = [cs[d] * grid[d] - rng.choice([0, 0, 1]) * (cs[d] > 1) for d in range(3)]
+            block = rng.choice([[8, 8, 8], [4, 4, 4], [2, 2, 2], [rng.randint(1, 5) for _ in range(3)]])
+            arrs = {}
+            for x in range(0, size[0], cs[0]):
+                for y in range(0, size[1], cs[1]):
+                    for z in range(0, size[2], cs[2]):
+                        cc = (x, min(x + cs[0], size[0]), y, min(y + cs[1], size[1]), z, min(z + cs[2], size[2]))
+                        shp = (C, cc[5] - cc[4], cc[3] - cc[2], cc[1] - cc[0])
+                        hi = rng.choice([2, 4, 300, 2 ** 31])
+                        arrs[cc] = nprng.integers(0, hi, size=shp).astype(dtype)
+                        order.append(("s%d" % k, cc))
+            scales.append(("s%d" % k, size, cs, block, arrs))
+        rng.shuffle(order)
+        for arr, block, case in cd.record_cseg_dataset(scales, dtype, C, order):
+            items.append((arr, block, case, "dataset-history"))
+            nh += 1
+    ctx.notes["dataset_history_chunks"] = nh
+
     cases = [c for _, _, c, _ in items]
     verdicts = ctx.judge("Trace_CSeg", cases, workers=12, chunk=4000)
 
